@@ -272,6 +272,43 @@ static bool ReplayModAttrs()
 	return true;
 }
 
+// FNV-1a-64 of the body of every object's block of modified-attributes.conf as the real ConfigWriter wrote it (the lines
+// after "if (obj) {" up to and including the closing "}"), keyed by object name; vmodel prints the digest of the text
+// the Gallina writer generates for the same block
+static std::map<std::string, std::string> ModAttrDigests()
+{
+	std::map<std::string, std::string> out;
+	std::ifstream f(Configuration::ModAttrPath.GetData(), std::ios::binary);
+	if (!f) return out;
+	std::ostringstream all; all << f.rdbuf();
+	std::string s = all.str(), name;
+	int state = 0;               // 0 outside, 1 header seen, 2 in body, 3 version line seen
+	unsigned long long h = 0;
+	size_t p = 0;
+	const std::string head = "var obj = get_object(\"Host\", \"";
+	while (p < s.size()) {
+		size_t e = s.find('\n', p);
+		std::string line = s.substr(p, e == std::string::npos ? std::string::npos : e - p + 1);
+		p += line.size();
+		if (state == 0) {
+			if (line.compare(0, head.size(), head) == 0) { name = line.substr(head.size(), line.rfind("\")") - head.size()); state = 1; }
+		} else if (state == 1) {
+			state = 2; h = 0xcbf29ce484222325ULL;
+		} else {
+			for (unsigned char c : line) { h ^= c; h *= 0x100000001b3ULL; }
+			// the block ends with the line after "<TAB>obj.version = ..." (a bare "}" line also closes nested dictionaries)
+			if (state == 3) { char b[32]; snprintf(b, sizeof b, "%016llx", h); out[name] = b; state = 0; }
+			else if (line.compare(0, 15, "\tobj.version = ") == 0) state = 3;
+		}
+	}
+	return out;
+}
+static std::string TxtOf(const std::map<std::string, std::string>& d, size_t i)
+{
+	auto it = d.find(HostName(i));
+	return " txt=" + (it == d.end() ? std::string("-") : it->second);
+}
+
 // DumpModifiedAttributes, then "restart": fresh objects from the same configuration, the written file evaluated
 VOP(ps_dma)
 {
@@ -280,10 +317,11 @@ VOP(ps_dma)
 		IcingaApplication::GetInstance()->DumpModifiedAttributes();
 	} catch (const std::exception&) { ok = false; }
 	if (!ok) { Out("dma ok=0"); return; }
+	auto txt = ModAttrDigests();
 	RemoveAll();
 	Create();
 	ok = ReplayModAttrs();
-	for (size_t i = 0; i < l_N; i++) Out(MState("dma", ok, i));
+	for (size_t i = 0; i < l_N; i++) Out(MState("dma", ok, i) + TxtOf(txt, i));
 }
 
 // the whole stop/start cycle: DumpProgramState (state file + modified-attributes.conf), fresh objects from the same
@@ -294,11 +332,12 @@ VOP(ps_restart)
 		ConfigObject::DumpObjects(Configuration::StatePath);
 		IcingaApplication::GetInstance()->DumpModifiedAttributes();
 	} catch (const std::exception&) { Out("rst ok=0 dump-throws"); return; }
+	auto txt = ModAttrDigests();
 	RemoveAll();
 	Create();
 	try { ConfigObject::RestoreObjects(Configuration::StatePath); } catch (const std::exception&) { Out("rst ok=0 restore-throws"); return; }
 	bool ok = ReplayModAttrs();
-	for (size_t i = 0; i < l_N; i++) Out(MState("rst", ok, i));
+	for (size_t i = 0; i < l_N; i++) Out(MState("rst", ok, i) + TxtOf(txt, i));
 }
 
 // ------------------------------------------------------------------ (i) state round trip
